@@ -81,6 +81,30 @@ func declNames(fn *ssa.Function) []string {
 	return out
 }
 
+// nParamNames: how many leading entries of declNames are receiver, parameters and named results.
+func nParamNames(fn *ssa.Function) int {
+	fd, ok := fn.Syntax().(*ast.FuncDecl)
+	if !ok || fd == nil {
+		return 0
+	}
+	seen := map[string]bool{}
+	k := 0
+	for _, fl := range []*ast.FieldList{fd.Recv, fd.Type.Params, fd.Type.Results} {
+		if fl == nil {
+			continue
+		}
+		for _, f := range fl.List {
+			for _, n := range f.Names {
+				if n.Name != "_" && !seen[n.Name] {
+					seen[n.Name] = true
+					k++
+				}
+			}
+		}
+	}
+	return k
+}
+
 // renameMap returns old->new for a pure renaming, nil otherwise.
 func renameMap(old, cur []string) map[string]string {
 	if len(old) != len(cur) || len(old) == 0 {
@@ -238,14 +262,19 @@ func mentions(e *Expr, m map[string]string) bool {
 	return false
 }
 
-func renameContract(c *Contract, m map[string]string) *Contract {
-	if c.IsJet || len(c.JetAlias) > 0 || c.JetResult != "" || len(c.JetOperands) > 0 {
-		return nil
-	}
+func renameContract(c *Contract, m, mParams map[string]string) *Contract {
+	isJet := c.IsJet || len(c.JetAlias) > 0 || c.JetResult != "" || len(c.JetOperands) > 0
 	for _, cl := range c.Clauses {
 		if strings.HasPrefix(cl.Kind, "jet") {
+			isJet = true
+		}
+	}
+	if isJet {
+		// jet expressions use x, y, z as operand placeholders: only receiver/parameter/result names are followed
+		if len(mParams) == 0 {
 			return nil
 		}
+		return renameJetContract(c, mParams)
 	}
 	used := false
 	n := *c
@@ -292,6 +321,81 @@ func renameContract(c *Contract, m map[string]string) *Contract {
 	return &n
 }
 
+// Jet-level contracts name the parameters in jetalias/jetresult/jetoperands and, in their expressions, as
+// <param>, <param>_<Field>, post_<param>, post_<param>_<Field>.
+func jetName(x string, m map[string]string) string {
+	if nn, ok := m[x]; ok {
+		return nn
+	}
+	if strings.HasPrefix(x, "post_") {
+		return "post_" + jetName(x[len("post_"):], m)
+	}
+	if k := strings.Index(x, "_"); k > 0 {
+		if nn, ok := m[x[:k]]; ok {
+			return nn + x[k:]
+		}
+	}
+	return x
+}
+
+func renameJetExpr(e *Expr, m map[string]string) *Expr {
+	if e == nil {
+		return nil
+	}
+	n := *e
+	if e.Kind == "ident" {
+		if nn := jetName(e.Name, m); nn != e.Name {
+			n.Name = nn
+			n.Src = ""
+		}
+		return &n
+	}
+	n.Args = make([]*Expr, len(e.Args))
+	for i, a := range e.Args {
+		n.Args[i] = renameJetExpr(a, m)
+	}
+	return &n
+}
+
+func renameJetContract(c *Contract, m map[string]string) *Contract {
+	n := *c
+	n.Clauses = nil
+	for _, cl := range c.Clauses {
+		if len(cl.E.allVars()) > 0 {
+			return nil // binders in a jet clause: not handled, keep the contract as written
+		}
+		k := *cl
+		k.E = renameJetExpr(cl.E, m)
+		n.Clauses = append(n.Clauses, &k)
+	}
+	n.JetAlias = nil
+	for _, a := range c.JetAlias {
+		ps := strings.Split(a, "=")
+		for i := range ps {
+			ps[i] = jetName(strings.TrimSpace(ps[i]), m)
+		}
+		n.JetAlias = append(n.JetAlias, strings.Join(ps, "="))
+	}
+	n.JetResult = jetName(c.JetResult, m)
+	n.JetOperands = nil
+	for _, o := range c.JetOperands {
+		n.JetOperands = append(n.JetOperands, jetName(o, m))
+	}
+	n.Renamed = m
+	return &n
+}
+
+func (e *Expr) allVars() []QVar {
+	if e == nil {
+		return nil
+	}
+	out := append([]QVar(nil), e.Vars...)
+	for _, a := range e.Args {
+		out = append(out, a.allVars()...)
+	}
+	return out
+}
+
 func readLocals(path string) map[string][]string {
 	tab := map[string][]string{}
 	if data, err := os.ReadFile(path); err == nil {
@@ -314,11 +418,18 @@ func (V *Verifier) applyRenames(path string) []string {
 		if !ok {
 			continue
 		}
-		m := renameMap(old, declNames(fn))
+		cur := declNames(fn)
+		m := renameMap(old, cur)
 		if m == nil {
 			continue
 		}
-		if nc := renameContract(c, m); nc != nil {
+		mParams := map[string]string{}
+		for i := 0; i < nParamNames(fn) && i < len(old); i++ {
+			if old[i] != cur[i] {
+				mParams[old[i]] = cur[i]
+			}
+		}
+		if nc := renameContract(c, m, mParams); nc != nil {
 			V.byFunc[fn] = nc
 			var ps []string
 			for a, b := range m {
